@@ -312,6 +312,27 @@ func genC24(seed uint64, tier string) *Scenario {
 	s.Oracles = []string{"status_error"}
 	s.Client.DisableRetry = r.Chance(1, 2)
 	genTraffic(r, tier, s, true)
+	if r.Chance(1, 4) {
+		// retry policy: handlers fail with a retryable code for the first
+		// attempts, so RPCs spend time in retry backoff / pushback delays while
+		// deadlines pass, contexts are cancelled and faults hit
+		s.Client.DisableRetry = false
+		s.Client.ServiceConfig = fmt.Sprintf(`{"methodConfig":[{"name":[{}],"retryPolicy":{"maxAttempts":%d,"initialBackoff":"%ds","maxBackoff":"%ds","backoffMultiplier":%d,"retryableStatusCodes":["UNAVAILABLE"]}}]}`, r.Range(2, 5), r.Range(1, 20), r.Range(20, 100), r.Range(1, 3))
+		fail := []Op{{Op: "return", Code: 14, Msg: "try again later"}}
+		for i := range s.RPCs {
+			if r.Chance(2, 3) {
+				ok := s.RPCs[i].Server[0]
+				var scr [][]Op
+				for k := r.Range(1, 4); k > 0; k-- {
+					scr = append(scr, fail)
+				}
+				s.RPCs[i].Server = append(scr, ok)
+				if r.Chance(1, 2) {
+					s.RPCs[i].DeadlineNs = int64(r.LogUniform(1000000, 30000000000))
+				}
+			}
+		}
+	}
 	switch r.Intn(4) {
 	case 0:
 		genFaults(r, s, "stall", "cut_after", "reset", "half_close", "blackhole")
